@@ -29,7 +29,7 @@
        FrameIsView      the frame holds exactly the stored samples inside the reported view, in order
        ViewOrdered, InBounds   a step's view is a range inside the bounds
        AdjFwd / AdjBwd  consecutive same-direction steps: view'.start = view.end (mirrored)
-       AutoProgressFwd/Bwd  an automatic step returns data while samples remain in the bounds
+       AutoProgressFwd/Bwd  an automatic step moves the view on while samples remain in the bounds
        SeekFirstNoSkip / SeekLastNoSkip  no stored sample between the bound and the position
        SeekFinds        SeekFirst / SeekLast succeed when the bounds hold a stored sample
        TraversalOnce    (state) since SeekFirst only forward steps => the samples returned so far
@@ -39,6 +39,9 @@
        TurnFwd/TurnBwd  a step after a step in the other direction starts at view.end / ends at view.start
        StartAtSeek      the first step after a seek starts (ends) at the seek position
        AutoCountFwd/Bwd an automatic step returns exactly min(chunk, remaining) samples
+       AutoDataFwd/Bwd  an automatic step returns data (and is Valid) while samples remain.  The
+                        code counts a chunk in INDEX samples; where the data channel has a hole under
+                        index samples a chunk can be empty, Valid() false, although data remains
        ValidIffData     Valid() <=> the frame has data
        SeekInBounds, SeekGEPos, SeekLEPos   where a seek lands (layout dependent in the code:
                         domain starts/ends; the spec only constrains it)
@@ -72,8 +75,8 @@ ViewOrdered == view'[1] <= view'[2]
 InBounds == bounds'[1] <= view'[1] /\ view'[2] <= bounds'[2]
 AdjFwd == view'[1] = view[2]
 AdjBwd == view'[2] = view[1]
-AutoProgressFwd == Read(view[2], bounds[2]) # <<>> => (frame' # <<>> /\ valid')
-AutoProgressBwd == Read(bounds[1], view[1]) # <<>> => (frame' # <<>> /\ valid')
+AutoProgressFwd == Read(view[2], bounds[2]) # <<>> => view'[2] > view[2]
+AutoProgressBwd == Read(bounds[1], view[1]) # <<>> => view'[1] < view[1]
 SeekFirstNoSkip == Read(bounds[1], view'[1]) = <<>>
 SeekLastNoSkip == Read(view'[2], bounds[2]) = <<>>
 \* state form of "a full traversal visits every sample in the bounds exactly once"
@@ -82,6 +85,8 @@ TraversalOnce == /\ (run = "first" /\ last \in FwdKinds) => acc = Read(bounds[1]
 \* drift level
 SpanEndFwd(target) == view'[2] = Min2(Max2(target, view'[1]), bounds[2])
 SpanEndBwd(target) == view'[1] = Max2(Min2(target, view'[2]), bounds[1])
+AutoDataFwd == Read(view[2], bounds[2]) # <<>> => (frame' # <<>> /\ valid')
+AutoDataBwd == Read(bounds[1], view[1]) # <<>> => (frame' # <<>> /\ valid')
 AutoCountFwd == Len(frame') = Min2(chunk, Len(Read(view[2], bounds[2])))
 AutoCountBwd == Len(frame') = Min2(chunk, Len(Read(bounds[1], view[1])))
 ValidIffData == valid' <=> (frame' # <<>>)
@@ -165,8 +170,8 @@ IsStepB == last' \in BwdKinds /\ ~UNCHANGED ivars
 StepClauses == [][(IsStepF \/ IsStepB) => (FrameIsView /\ ViewOrdered /\ InBounds /\ ValidIffData)]_ivars
 Adjacent == [][/\ (IsStepF /\ last \in FwdKinds \cup {"seek"}) => AdjFwd
                /\ (IsStepB /\ last \in BwdKinds \cup {"seek"}) => AdjBwd]_ivars
-AutoClauses == [][/\ (last' = "afwd" /\ ~UNCHANGED ivars) => (AutoProgressFwd /\ AutoCountFwd)
-                  /\ (last' = "abwd" /\ ~UNCHANGED ivars) => (AutoProgressBwd /\ AutoCountBwd)]_ivars
+AutoClauses == [][/\ (last' = "afwd" /\ ~UNCHANGED ivars) => (AutoProgressFwd /\ AutoDataFwd /\ AutoCountFwd)
+                  /\ (last' = "abwd" /\ ~UNCHANGED ivars) => (AutoProgressBwd /\ AutoDataBwd /\ AutoCountBwd)]_ivars
 SeekClauses == [][(last' = "seek" /\ ~UNCHANGED ivars) =>
                     /\ SeekInBounds /\ FrameIsView
                     /\ (run' = "first" => SeekFirstNoSkip)
